@@ -98,6 +98,7 @@ class GenCfg:
     bwd_end_tie: bool = False        # the last autograd operator inside a backward annotation / profiler step ends exactly when that one ends
     rank_ids: Optional[Tuple[int, ...]] = None   # the job's rank numbers when they are not 0..n-1 (a sampled job: e.g. ranks 0, 2, 5)
     p_launch_at_step_end: float = 0.0  # a launch call of the main thread begins at the very instant a profiler step ends (window boundary)
+    p_mem_as_kernel: float = 0.0     # a cudaMemsetAsync / cudaMemcpyAsync call whose linked device activity is of category "kernel"
     p_graph_launch: float = 0.0      # a launch call starts SEVERAL kernels that all carry its correlation id (CUDA graph launch); outside the
                                      # "one host call, one device activity per id" domain, so only for properties without that restriction
     big_vocab: bool = False          # rank 0 uses > 130 distinct operator names and every later rank one name of its own: the later
@@ -184,8 +185,10 @@ class _Sim:
                 call, cat, kname = "cudaMemcpyAsync", "gpu_memcpy", rng.choice(K_MEMCPY)
                 if rng.random() < cfg.p_unlisted_launch:
                     call = UNLISTED_MEM_LAUNCH
-            bw = rng.choice([1, 2, 3, 4, 6, 8, 12, 16]) / 4.0   # dyadic
-            kargs = {"bytes": 512 * rng.randint(1, 8), "memory bandwidth (GB/s)": bw}
+            if rng.random() < cfg.p_mem_as_kernel:
+                cat, kname = "kernel", rng.choice(K_COMP)
+            bw = rng.choice([1, 2, 3, 4, 6, 8, 12, 16, 2 ** -9, 2 ** -10]) / 4.0   # dyadic, incl. very slow copies (about 0.0005 and 0.00024 GB/s)
+            kargs = {"queued": 0} if cat == "kernel" else {"bytes": 512 * rng.randint(1, 8), "memory bandwidth (GB/s)": bw}
         else:
             call, cat = rng.choice(KERNEL_LAUNCHES), "kernel"
             if rng.random() < cfg.p_unlisted_launch:
